@@ -130,34 +130,58 @@ func c18Arena(r *core.Run, p *core.Prog, name string) {
 		return true
 	})
 	info = scope.Info()
+	// a local through which the slot is filled before it is stored: `s := <arena slice>; copy(s, key); *slot = s`
+	via := map[types.Object]bool{}
+	if slotIsDeref {
+		core.Walk(scope.Decl.Body, false, func(x ast.Node) bool {
+			if a, ok := x.(*ast.AssignStmt); ok && len(a.Lhs) == 1 && len(a.Rhs) == 1 {
+				if _, isStar := ast.Unparen(a.Lhs[0]).(*ast.StarExpr); isStar && strings.HasSuffix(core.TypeName(info.TypeOf(a.Lhs[0])), "hashmap.Key") {
+					if o := core.ObjOf(info, a.Rhs[0]); o != nil {
+						via[o] = true
+					}
+				}
+			}
+			return true
+		})
+	}
 	isSlot := func(e ast.Expr) bool {
 		if slotIsDeref {
+			if o := core.ObjOf(info, e); o != nil && via[o] {
+				return true
+			}
 			_, ok := ast.Unparen(e).(*ast.StarExpr)
 			return ok && strings.HasSuffix(core.TypeName(info.TypeOf(e)), "hashmap.Key")
 		}
 		return core.ObjOf(info, e) == slotLocal
 	}
-	var slotAssign, copyPos, growPos, advPos token.Pos
+	// order of the statements as the walk meets them (source positions are meaningless across an expanded helper)
+	seq := 0
+	var slotAssign, copyPos, growPos, advPos int
 	slotOK, copyOK, growOK, advOK := false, false, false, false
 	core.Walk(scope.Decl.Body, false, func(x ast.Node) bool {
+		seq++
 		switch s := x.(type) {
 		case *ast.AssignStmt:
 			if len(s.Lhs) != 1 || len(s.Rhs) != 1 {
 				return true
 			}
 			if isSlot(s.Lhs[0]) {
-				slotAssign = s.Pos()
-				if se, ok := ast.Unparen(s.Rhs[0]).(*ast.SliceExpr); ok && core.SelField(info, se.X) == fData &&
+				if se, isSl := ast.Unparen(s.Rhs[0]).(*ast.SliceExpr); isSl && core.SelField(info, se.X) == fData {
+					slotAssign = seq // where the arena is cut
+				} else if slotAssign == 0 {
+					slotAssign = seq
+				}
+				if se, ok := ast.Unparen(resolveLocal(info, scope.Decl.Body, s.Rhs[0])).(*ast.SliceExpr); ok && core.SelField(info, se.X) == fData &&
 					core.MentionsField(info, se.Low, fPos) && core.MentionsField(info, se.High, fPos) && strings.Contains(core.Str(se.High), "len("+key.Name()+")") {
 					slotOK = true
 				}
 			}
 			if core.SelField(info, s.Lhs[0]) == fPos && s.Tok == token.ADD_ASSIGN && core.Str(s.Rhs[0]) == "len("+key.Name()+")" {
-				advOK, advPos = true, s.Pos()
+				advOK, advPos = true, seq
 			}
 			if core.SelField(info, s.Lhs[0]) == fData {
 				if c, ok := s.Rhs[0].(*ast.CallExpr); ok && core.CallName(info, c) == "builtin.append" {
-					growPos = s.Pos()
+					growPos = seq
 				}
 			}
 		case *ast.IfStmt:
@@ -166,7 +190,7 @@ func c18Arena(r *core.Run, p *core.Prog, name string) {
 			}
 		case *ast.CallExpr:
 			if core.CallName(info, s) == "builtin.copy" && len(s.Args) == 2 && core.ObjOf(info, s.Args[1]) == key && isSlot(s.Args[0]) {
-				copyOK, copyPos = true, s.Pos()
+				copyOK, copyPos = true, seq
 			}
 		}
 		return true
@@ -177,7 +201,7 @@ func c18Arena(r *core.Run, p *core.Prog, name string) {
 	r.Check(rule, name+":slot-is-slice-of-own-arena", p.Rel(f.Decl.Pos()), slotOK,
 		"the key slot of a new entry must be m.keyData[pos:pos+len(key)]; storing the caller's slice makes later changes of the caller's buffer (the aggregation code reuses one key buffer for all entries) change the keys inside the map")
 	r.Check(rule, name+":caller-bytes-copied-into-slot", p.Rel(f.Decl.Pos()), copyOK && copyPos > slotAssign, "copy(*slot, key) must follow the slot assignment")
-	r.Check(rule, name+":arena-grown-before-slot-is-cut", p.Rel(f.Decl.Pos()), growOK && growPos.IsValid() && growPos < slotAssign, "the arena must be extended when pos+len(key) exceeds it, before slicing")
+	r.Check(rule, name+":arena-grown-before-slot-is-cut", p.Rel(f.Decl.Pos()), growOK && growPos > 0 && growPos < slotAssign, "the arena must be extended when pos+len(key) exceeds it, before slicing")
 	r.Check(rule, name+":arena-position-advances-by-key-length", p.Rel(f.Decl.Pos()), advOK && advPos > slotAssign, "keyDataPos += len(key) after the slot was cut; otherwise the next key overwrites this one")
 }
 
